@@ -105,7 +105,10 @@ def bounded(arg):
     samples = []
     fams = (('compare', COMPARE, 'a %s b'), ('bool', BOOL, 'a %s b'), ('bin', BIN, 'a %s b'), ('unary', UNARY, '%s a'))
     for prog in programs(n, seed):
-        tree = ast.parse(prog)
+        try:
+            tree = ast.parse(prog)
+        except SyntaxError:
+            continue            # the random generator can put a unary `not` where Python wants parentheses
         clear_report()
         contextualize_report(prog)
         root = parse_program()
